@@ -90,6 +90,7 @@ class Verifier:
         self.stats["queries"] += 1
         dt = time.time() - t0
         self.solver_time += dt
+        self.stats["max_query_ms"] = max(self.stats.get("max_query_ms", 0), int(dt * 1000))
         if r == z3.unsat:
             if self.second_backend and self.stats["second_backend_queries"] < self.second_backend_limit:
                 self._second_opinion(s)
